@@ -131,8 +131,9 @@ def _try_illegal(d, pdu):
     return m
 
 
-def _rtu_frame_at(d, data, pos, lenient_diag=True):
-    """(frame, None) / (None, 'incomplete') / (None, 'bad')"""
+def _rtu_frame_at(d, data, pos, lenient_diag=True, skip=0):
+    """(frame, None) / (None, 'incomplete') / (None, 'bad'); skip: diagnostic frames only - ignore CRC-valid extents with fewer
+    than `skip` data words (a diagnostic frame whose data word happens to equal the CRC of the shorter frame has two readings)"""
     if len(data) - pos < 2:
         return None, 'incomplete'
     fc = data[pos + 1]
@@ -140,7 +141,7 @@ def _rtu_frame_at(d, data, pos, lenient_diag=True):
         if fc != 8:
             return None, 'bad'
         # diagnostic: data length is not self-describing; take the shortest CRC-valid even extent
-        for n in range(3, min(254, len(data) - pos - 2) + 1, 2):
+        for n in range(3 + 2 * skip, min(254, len(data) - pos - 2) + 1, 2):
             body = data[pos:pos + 1 + n]
             if data[pos + 1 + n:pos + 3 + n] == crc_bytes(body):
                 m = _try(d, body[1:])
@@ -184,13 +185,31 @@ def parse_stream(framing, d, data):
             pos += 6 + ln
         return frames, pos, None
     if framing == 'rtu':
-        while pos < len(data):
-            f, err = _rtu_frame_at(d, data, pos)
-            if f is None:
-                return frames, pos, (None if err == 'incomplete' else 'bad rtu frame at %d' % pos)
-            frames.append(f)
-            pos = f.end
-        return frames, pos, None
+        best = None
+        stack = [(0, [])]                       # depth-first over the (rare) alternative extents of diagnostic frames
+        steps = 0
+        while stack and steps < 20000:
+            pos, frames = stack.pop()
+            while True:
+                steps += 1
+                if pos >= len(data):
+                    return frames, pos, None
+                f, err = _rtu_frame_at(d, data, pos)
+                if f is None:
+                    res = (frames, pos, None if err == 'incomplete' else 'bad rtu frame at %d' % pos)
+                    if res[2] is None and not (len(data) > pos + 1 and data[pos + 1] == 8):
+                        return res
+                    if best is None or (res[2] is None) > (best[2] is None) or ((res[2] is None) == (best[2] is None) and res[1] > best[1]):
+                        best = res
+                    break
+                if len(f.pdu) >= 1 and f.pdu[0] == 8:
+                    # a longer CRC-valid reading of the same diagnostic frame is an alternative to come back to
+                    alt, _ = _rtu_frame_at(d, data, pos, skip=(len(f.pdu) - 3) // 2 + 1)
+                    if alt is not None:
+                        stack.append((alt.end, frames + [alt]))
+                frames = frames + [f]
+                pos = f.end
+        return best if best is not None else ([], 0, None)
     if framing == 'ascii':
         while pos < len(data):
             if data[pos:pos + 1] != b':':
